@@ -451,6 +451,11 @@ async fn run_c17(sc: &Value, attempt: u64, rec: Arc<Recorder>) -> Value {
     if mode != "WebRtc" {
         cfg.dc = false;
     }
+    // WebRtc without a data channel (media only): no SCTP association exists on the connection
+    if sc.get("dc").and_then(|x| x.as_bool()) == Some(false) {
+        cfg.dc = false;
+        cfg.audio = true;
+    }
     let loss = [ev1.as_str(), ev2.as_str()].iter().any(|e| matches!(*e, "SocketLoss" | "PeerSctpShutdown"));
     let blocked = ev1 == "BlockedSender";
     let flaps = sc.get("flaps").and_then(|x| x.as_u64()).unwrap_or(0);
